@@ -27,7 +27,7 @@ ID_INVS = ("TxidIsHashOfNoWitnessForm", "WtxidIsHashOfFullForm", "NonWitnessIdsE
 def _stage_a(ctx):
     quick = ctx.tier == "quick"
     runs = [("MC_Tx", f"MC_Tx_{'q' if quick else 't'}.cfg",
-             "n_in 1..2, n_out 1.." + ("1" if quick else "2") + ", script lengths 0..2, witness off / stacks of 0..3 items, "
+             "n_in 1..2, n_out 1 (" + ("2" if quick else "3") + " output choices), script lengths 0..2, witness off / stacks of 0..3 items, "
              "sequences ffffffff/fffffffe/0, trailing none/00/copy/prefix" + ("" if quick else "/01/last/zeros")
              + "; toy hash", 8),
             ("MC_Tx", f"MC_Tx_real_{'q' if quick else 't'}.cfg",
